@@ -99,7 +99,7 @@ def _compile(harness, kind, flavour, bdir):
 
 
 def prune_builds(keep_dirs):
-    """keep at most 3 build directories per flavour (the current ones always)."""
+    """keep at most 3 build directories per (flavour, harness), plus anything used in the last 6 hours."""
     if not os.path.isdir(BUILD):
         return
     by_fl = {}
@@ -110,10 +110,12 @@ def prune_builds(keep_dirs):
                 shutil.rmtree(p, ignore_errors=True)   # directories of an older layout
             continue
         by_fl.setdefault(d.rsplit('-', 1)[0], []).append(p)
+    now = time.time()
     for fl, dirs in by_fl.items():
         dirs.sort(key=lambda p: os.path.getmtime(p), reverse=True)
         for p in dirs[3:]:
-            if p not in keep_dirs:
+            # never remove a directory that was used recently: another check may be running from it
+            if p not in keep_dirs and now - os.path.getmtime(p) > 6 * 3600:
                 shutil.rmtree(p, ignore_errors=True)
 
 
